@@ -746,6 +746,31 @@ def run(res: Results, idx: Index, tier: str) -> None:
     rule_f_inner(res, idx, m)
     rule_g(res, idx, m)
     rule_h(res, idx, m)
+    rule_i(res, idx, tier)
+
+
+# ---------------------------------------------------------------------------------------------- R-C02i
+def rule_i(res: Results, idx: Index, tier: str) -> None:
+    """remove_redundant_casts_ir is one of the registered passes: the soundness of its decision procedure and range
+    proof is decided by C17 (R-C17b / c / d / e).  The violating / unresolved instances are re-reported here, the
+    sound ones summarised, so that a cast pair removed unsoundly is also a C02 violation."""
+    from . import c17
+    res.rule("R-C02i", "the cast-elimination pass removes only value-preserving round trips (instances of C17 R-C17b/c/d/e)", floor=4)
+    sub = Results("C17", tier)
+    c17.run(sub, idx, tier)
+    per_rule = {}
+    for inst in sub.instances:
+        if inst.rule not in ("R-C17b", "R-C17c", "R-C17d", "R-C17e"):
+            continue
+        per_rule.setdefault(inst.rule, [0, 0])
+        per_rule[inst.rule][0] += 1
+        if inst.status != "OK":
+            per_rule[inst.rule][1] += 1
+            res.add("R-C02i", inst.status, inst.site, f"{inst.rule}::{inst.key}", f"[C17 {inst.rule}] {inst.detail}", inst.func)
+    for rid, (n, bad) in sorted(per_rule.items()):
+        res.ok("R-C02i", f"{OPT}:1", f"{rid}::summary", f"{n - bad} of {n} instances of C17 {rid} hold", "remove_redundant_casts_ir")
+    if len(per_rule) < 4:
+        raise AnalysisError(f"C17 rules re-decided for C02: only {sorted(per_rule)} produced instances")
 
 
 # ---------------------------------------------------------------------------------------------- R-C02g
